@@ -96,8 +96,11 @@ def build(ctx):
         fields[fi['current_line_contains_string_literal']] = S
         fields[fi['format_line']] = sel(L)          # invariant: format_line = sel(cur_line)
         fields[fi['config']] = cfgref
+        selL, selL1 = z3.Bool('sel_L'), z3.Bool('sel_L1')
+        st.assume(selL == sel(L))
+        st.assume(selL1 == sel(L + 1))
         selfref = eng.ref_to(st, Tup(fields, 'FormatLines'), True, 'self')
-        g = dict(W=W, L=L, NC=NC, B=B, S=S, mw=mw, ts=ts, eou=eou, eol=eol, ranges=ranges, selfref=selfref, cfgref=cfgref)
+        g = dict(selL=selL, selL1=selL1, W=W, L=L, NC=NC, B=B, S=S, mw=mw, ts=ts, eou=eou, eol=eol, ranges=ranges, selfref=selfref, cfgref=cfgref)
         return st, g
 
     def kind_val(st, base):
@@ -115,7 +118,7 @@ def build(ctx):
     c = BV(z3.BitVec('c', 32), 'char')
     st.assume(z3.And(z3.ULE(c.e, 0x10FFFF), z3.Or(z3.ULT(c.e, 0xD800), z3.UGT(c.e, 0xDFFF)), c.e != 10, c.e != 13))
     kv, kd = kind_val(st, 'kind')
-    mv = [g['W'], g['L'], g['NC'], g['B'], g['S'], g['mw'], g['ts'], c.e, kd]
+    mv = [g['W'], g['L'], g['NC'], g['B'], g['S'], g['mw'], g['ts'], c.e, kd, g['selL'], g['selL1']]
     outs = ctx.check_outcomes(eng.run(names['char'], [g['selfref'], c, kv], st), 'char')
     for i, o in enumerate(outs):
         if o.kind == 'panic':
@@ -137,7 +140,7 @@ def build(ctx):
     st, g = mk_state()
     kv, kd = kind_val(st, 'kind')
     W, L, B, S, mw, eou, eol = g['W'], g['L'], g['B'], g['S'], g['mw'], g['eou'], g['eol']
-    mv = [W, L, g['NC'], B, S, mw, g['ts'], kd, eou, eol] + [x.e for r in g['ranges'] for x in r.items]
+    mv = [W, L, g['NC'], B, S, mw, g['ts'], kd, eou, eol, g['selL'], g['selL1']] + [x.e for r in g['ranges'] for x in r.items]
     skipped = z3.Or([z3.And(z3.ULE(r.items[0].e, L), z3.ULE(L, r.items[1].e)) for r in g['ranges']])
     eligible = z3.And(sel(L), z3.Not(skipped))
     is_c = in_kinds(kd, SPEC_COMMENT)
@@ -270,13 +273,75 @@ def spec_lines(text, events, max_width, tab_spaces, eou, eol, skipped, selected)
     return must_tw, must_lo
 
 
+def kernel_replay(rp, what, model):
+    """exact replay of the solver's model: the real scanner is put into the model's state (hook) and does one step;
+    the specification is recomputed here in Python"""
+    def g(k, d=0):
+        return model.get(k, d)
+    def keys(name):
+        return [k for k in model if re.search(r'(^|\.)' + name + r'(!\d+)?$', k)]
+    mwk, tsk, eouk, eolk = keys('max_width'), keys('tab_spaces'), keys('error_on_unformatted'), keys('error_on_line_overflow')
+    if not mwk or not tsk:
+        return None
+    mw, ts = model[mwk[0]], model[tsk[0]]
+    eou = bool(model[eouk[0]]) if eouk else False
+    eol = bool(model[eolk[0]]) if eolk else False
+    W, L, NC, B, S = g('W'), g('L', 1), g('NC'), bool(g('B', False)), bool(g('S', False))
+    if max(W, L, NC, mw) > (1 << 40):
+        return None
+    selL, selL1 = bool(g('sel_L', True)), bool(g('sel_L1', True))
+    ranges = []
+    if selL:
+        ranges.append([L, L])
+    if selL1:
+        ranges.append([L + 1, L + 1])
+    fl = json.dumps([{'file': 'stdin', 'range': r_} for r_ in ranges])
+    skipped = []
+    i = 0
+    while ('sk%d.lo' % i) in model:
+        skipped.append([model['sk%d.lo' % i], model['sk%d.hi' % i]])
+        i += 1
+    kind = g('kind', 0)
+    req = {'op': 'format_lines_step', 'max_width': mw, 'tab_spaces': ts, 'error_on_unformatted': eou, 'error_on_line_overflow': eol, 'file_lines': fl,
+           'skipped': skipped, 'state': [B, W, L, NC, S, selL], 'kind': kind}
+    if what == 'char':
+        req['char'] = g('c', 97)
+    res = rp.call(req)
+    if 'panic' in res:
+        return {'reproduced': True, 'detail': ['panic: ' + res['panic']], 'request': req}
+    ns, errs = res['state'], res['errors']
+    bad = []
+    if what == 'char':
+        c = g('c', 97)
+        wantW = W + (ts if c == 9 else 1)
+        if ns[1] != wantW or ns[0] != chr(c).isspace() or ns[4] != (S or kind == 9) or ns[2] != L or ns[3] != 0 or errs:
+            bad.append('char step: state %r errors %r, expected width %d blank %s string %s' % (ns, errs, wantW, chr(c).isspace(), S or kind == 9))
+    else:
+        is_c = kind in (1, 2, 3, 6)
+        eligible = selL and not any(a <= L <= b for a, b in skipped)
+        exempt = (not eou) and (is_c or S)
+        want_tw = eligible and not exempt and B
+        w_eff = W - 1 if B else W
+        want_lo = eligible and not exempt and eol and w_eff > mw
+        got_tw = [e for e in errs if e[1] == 1]
+        got_lo = [e for e in errs if e[1] == 0]
+        if bool(got_tw) != want_tw or bool(got_lo) != want_lo or len(errs) != len(got_tw) + len(got_lo) or any(e[0] != L for e in errs):
+            bad.append('new_line step: errors %r, expected trailing=%s overflow=%s on line %d' % (errs, want_tw, want_lo, L))
+        if ns[1] != 0 or ns[2] != L + 1 or ns[0] or ns[4] or ns[5] != selL1 or ns[3] != NC + 1:
+            bad.append('new_line step: state after %r, expected line %d selected=%s' % (ns, L + 1, selL1))
+    return {'reproduced': bool(bad), 'detail': bad, 'request': req, 'native': res}
+
+
 def make_replay(ctx, rp, what):
     def replay(model, r):
+        kr = kernel_replay(rp, what, model or {})
+        if kr is not None and kr.get('reproduced'):
+            return kr
         W = min(model.get('W', 0), 200)
         L = max(2, min(model.get('L', 2), 30))      # line 1 is special-cased by FormatLines::new; use an interior line
         mw = model.get('mw', model.get('cfg.max_width', 20))
-        mwk = [k for k in model if k.endswith('max_width')]
-        tsk = [k for k in model if k.endswith('tab_spaces')]
+        mwk = [k for k in model if re.search(r'max_width(!\d+)?$', k)]
+        tsk = [k for k in model if re.search(r'tab_spaces(!\d+)?$', k)]
         mw = model[mwk[0]] if mwk else 20
         ts = model[tsk[0]] if tsk else 4
         mw = min(mw, 200)
